@@ -52,6 +52,10 @@ def cases(tier, seed, shard, nshards):
         if n % 13 == 0:
             yield {"k": "ymd", "v": list(tup), "neg": n % 26 == 0 and any(tup), "ctor": "dialect:%s" % CTOR_DIALECTS[(n // 13) % len(CTOR_DIALECTS)]}
     if shard == 0:
+        # the interval of no duration, often enough for every dialect class to embed it in every statement position
+        for rep in range(12):
+            yield {"k": "ymd", "v": [0] * 7, "neg": False, "ctor": [None, "pos"][rep % 2], "rep": rep}
+            yield {"k": "weeks" if rep % 2 else "quarters", "q": 0, "ctor": None, "rep": rep}
         for big in (2 ** 53 + 1, 10 ** 17 + 1, 12345678901234567891, 2 ** 64 + 3):
             for pos in range(7):
                 v_ = [0] * 7
@@ -102,6 +106,8 @@ def expected(case):
     """(unit, sign, [field ints]) from the constructor arguments - independent of the library."""
     if case["k"] in ("quarters", "weeks"):
         q = case["q"]
+        if q == 0:
+            return "DAY", False, [0], 2  # (no duration: written like every other empty interval)
         return ("QUARTER" if case["k"] == "quarters" else "WEEK"), (q < 0), [abs(q)], 0
     v = case["v"]
     nz = [i for i, x in enumerate(v) if x]
@@ -178,7 +184,7 @@ def run_case(case, mon):
             j2 = s2.find("),", i2)
             outs.append(("function-argument", s2[i2:j2] if i2 >= 0 and j2 > i2 else s2))
             mon.count("embedded_renders", 2)
-            if mon.evaluations % 11 == 0:
+            if mon.evaluations % 11 == 0 or not any(case.get("v") or [case.get("q", 1)]):
                 # ... and as a value of every statement kind: the literal inside the statement is the bare literal of that dialect
                 bare = iv.get_sql(ctx)
                 Qd = reg[dname]
@@ -189,6 +195,10 @@ def run_case(case, mon):
                     "upsert-do-update-expr": lambda: Qd.into(t).insert(1, 2).on_conflict("id").do_update("ttl", t.ttl + iv),
                     "where-between": lambda: Qd.from_(t).select(t.a).where(t.ts.between(iv, t.b)),
                     "case-then": lambda: Qd.from_(t).select(reg["Case"]().when(t.a > 1, iv).else_(t.b)),
+                    "case-else": lambda: Qd.from_(t).select(reg["Case"]().when(t.a > 1, t.b).else_(iv)),
+                    "case-when-operand": lambda: Qd.from_(t).select(reg["Case"]().when(t.ts > iv, 1).else_(0)),
+                    "in-list": lambda: Qd.from_(t).select(t.a).where(t.ttl.isin([iv, t.b])),
+                    "function-first-arg": lambda: Qd.from_(t).select(reg["fn.Coalesce"](iv, t.b)),
                     "orderby-expr": lambda: Qd.from_(t).select(t.a).orderby(t.ts - iv),
                 }
                 for pos_, mk in stmts.items():
